@@ -4,7 +4,7 @@ import copy
 import itertools
 import os
 
-from simlib import common, scenario, workload, model, tblfmt
+from simlib import rx, common, scenario, workload, model, tblfmt
 from simlib.engine import Case, Finding, WorkResult
 from simlib.plan import Plan, Source, Op, Inst
 from . import streambase as sb
@@ -165,6 +165,16 @@ def work(ctx, idx):
     sc = scenario.gen_scenario(rng, forbid=('vtrail',), want={'big': True, 'tables': BIG_TABLES[(idx // 4) % len(BIG_TABLES)]} if big else None)
     if big:
         wr.stats['big-scenarios'] += 1
+        if rng.random() < 0.5:
+            # ... and with more than 127 equivalence classes: yy_ec / yy_meta then hold values that do not
+            # fit a signed byte (one rule per byte value)
+            for v in range(1, rng.randint(140, 220)):
+                if v != 10:
+                    sc.rules.append(scenario.Rule(pat=rx.lit(bytes([v])), conds=[]))
+            if 'e' not in (sc.tables or '-Cem') and 'm' not in (sc.tables or '-Cem'):
+                # yy_ec / yy_meta exist only with equivalence classes
+                sc.tables = rng.choice(['', '-Cem', '-Ce', '-Cae', '-Caem'])
+            wr.stats['big-scenarios-many-classes'] += 1
     if rng.random() < 0.3:
         sc.prefix = 'zz'
     tw, st, sv = variants(sc)
